@@ -78,6 +78,13 @@ class dictattr(dict):
                 del res[key]               
         return res
 
+    def _new(self, items):
+        """
+        a new object of the same type with these items. 
+        A subclass whose constructor has parameters of its own (dictable: data, columns) overrides this so that keys of these names stay keys
+        """
+        return type(self)(**items)
+
     def __and__(self, other):
         """
         dictattr uses & as a set operator for key filtering
@@ -95,7 +102,7 @@ class dictattr(dict):
         >>> assert (d & ['a', 'b', 'x']).keys() == d.keys() & ['a', 'b', 'x']
         """
         other = set(as_list(other))
-        return type(self)(**{key : value for key, value in self.items() if key in set(self.keys()) & other}) 
+        return self._new({key : value for key, value in self.items() if key in set(self.keys()) & other}) 
 
     def __add__(self, other):
         """
@@ -178,7 +185,7 @@ class dictattr(dict):
         if isinstance(value, tuple):
             return [self[v] for v in value]
         elif is_rng(value):
-            return type(self)(**{k : self[k] for k in value})
+            return self._new({k : self[k] for k in value})
         res = self
         if value in res or not is_str(value):
             return super(dictattr, self).__getitem__(value)
@@ -270,7 +277,7 @@ class dictattr(dict):
         >>> assert d.rename(['A', 'B', 'C']) == d.relabel(upper)
         """
         keys = relabel(list(self.keys()), *args, **relabels)
-        return type(self)(**{keys.get(k,k) : v for k, v in self.items()})
+        return self._new({keys.get(k,k) : v for k, v in self.items()})
 
     def rename(self, *args, **relabels):
         """
